@@ -139,6 +139,72 @@ def write_tool_roundtrip(v, key):
         shutil.rmtree(d, ignore_errors=True)
 
 
+def write_tool_over_existing(old, new, key):
+    """the file already holds key::old; octave_write(changes={key: new}); re-read. -> (status, value).
+    key 'K' = body assignment, 'META.K' = META field."""
+    import asyncio
+    import os
+    import shutil
+    import tempfile
+    from octave_mcp.core.ast_nodes import Assignment, Document
+    from octave_mcp.core.emitter import emit
+    from octave_mcp.core.parser import parse
+    from octave_mcp.mcp.write import WriteTool
+    d = tempfile.mkdtemp(prefix="c04x")
+    try:
+        p = os.path.join(d, "f.oct.md")
+        if key.startswith("META."):
+            doc0 = Document(name="D", meta={"TYPE": "T", key[5:]: old}, sections=[Assignment(key="OTHER", value=1)])
+        else:
+            doc0 = Document(name="D", sections=[Assignment(key="OTHER", value=1), Assignment(key=key, value=old)])
+        with open(p, "w") as f:
+            f.write(emit(doc0))
+        res = asyncio.run(WriteTool().execute(target_path=p, changes={key: new}))
+        if res.get("status") != "success":
+            return ("WRITE-ERROR", res.get("errors"))
+        doc = parse(open(p).read())
+        if key.startswith("META."):
+            return ("OK", doc.meta[key[5:]]) if key[5:] in doc.meta else ("MISSING", None)
+        for sec in doc.sections:
+            if getattr(sec, "key", None) == key:
+                return ("OK", sec.value)
+        return ("MISSING", None)
+    finally:
+        shutil.rmtree(d, ignore_errors=True)
+
+
+# scalars that are pairwise "close": equal under Python == across types (1 == True == 1.0), same spelling across kinds
+OVER_POOL = [0, 1, 2, -1, True, False, 0.0, 1.0, 2.0, -1.0, -0.0, "0", "1", "true", "false", "True", "null", "", "x", "1.0", 10**20, 1e+20]
+
+
+def changes_over_existing(ctx):
+    """a value set through octave_write(changes) over an EXISTING value of the same key must be read back with the new
+    value and type, for every ordered pair of the pool (a change that is 'equal' to the old value under == is still a
+    change of kind: 1 -> True, 2 -> 2.0, "1" -> 1), in a body assignment and in a META field"""
+    n = 0
+    for key in ("K", "META.K"):
+        for old in OVER_POOL:
+            for new in OVER_POOL:
+                if type(old) is type(new) and repr(old) == repr(new):
+                    continue
+                if isinstance(new, str) and new == "":
+                    pass
+                try:
+                    st, r = write_tool_over_existing(old, new, key)
+                except Exception as e:  # noqa
+                    ctx.property_failure({"old": repr(old), "new": repr(new), "key": key, "via": "octave_write changes over existing"},
+                                         f"octave_write raised {type(e).__name__}: {e}")
+                    continue
+                n += 1
+                ctx.count()
+                ctx.nontrivial(("over", key, repr(old), repr(new)))
+                if not (st == "OK" and same(new, r)):
+                    ctx.property_failure({"old": repr(old), "new": repr(new), "key": key, "via": "octave_write changes over existing",
+                                          "status": st, "read_back": repr(r)},
+                                         "scalar set through octave_write(changes) over an existing value does not survive with value and type")
+    ctx.extra["write_over_existing"] = n
+
+
 def numeric_twins(ctx):
     """run FIRST: history-dependent defects (caches keyed by value) show only before the process has emitted much"""
     # numeric twins: an int and the equal float (1 == 1.0 and hash(1) == hash(1.0) in Python) emitted in one process
@@ -308,6 +374,7 @@ def run(ctx):
         if not (st == "OK" and same(v, r)):
             ctx.property_failure({"value": repr(v), "via": "octave_write changes", "status": st, "read_back": repr(r)},
                                  "scalar set through octave_write(changes) does not survive")
+    changes_over_existing(ctx)
     ctx.extra["write_tool_roundtrips"] = wt
     ctx.assumptions += [
         "float(text)/repr(float) and int(text)/str(int) of CPython are trusted (numbers are compared on the implementation only)",
